@@ -25,7 +25,10 @@ CLAUSES = ["fourier-amplitude", "fourier-phase", "fourier-idempotent", "zero-err
            "exit-wave-product", "update-fixed-object", "update-fixed-probe", "positions-count", "positions-order",
            "raster-positions", "preprocess-positions", "pipeline-fourier-amplitude", "pipeline-fourier-phase",
            "pipeline-fourier-idempotent", "pipeline-update-fixed", "pipeline-zero-error"]
-QUICK = dict(n=700, time=40)
+ASSUMPTIONS = ["MultislicePtychographicOperator is exercised with one slice only: with more slices _propagate_array calls FresnelPropagator._evaluate_propagator_array, which does not exist any more (AttributeError, outside the property statement)",
+               "position correction, probe centre-of-mass correction and probe orthogonalisation are not part of the property and are switched off",
+               "positions are kept off the x.5 rounding boundary of the probe window"]
+QUICK = dict(n=3000, time=40)
 THOROUGH = dict(n=40000, time=240, shards=16)
 
 FOURIER = ["reg", "mixed-warmup", "multislice", "sim-warmup", "sim", "mixed"]
